@@ -194,8 +194,16 @@ def r3_pop_undoes_exactly_the_frame(ctx):
         tgt = P.un(f.target)
         src_names = P.names_read(f.iter)
         frame_var = {P.un(t) for a in P.walk_local(fn) if isinstance(a, ast.Assign) and any(x in frame_pops for x in P.calls(a.value)) for t in a.targets}
-        if len(f.body) == 1 and len(body_calls) == 1 and P.un(body_calls[0].func) == f"{tgt}.pop_bindings" and (src_names & frame_var):
+        pops = [c for c in body_calls if P.un(c.func) == f"{tgt}.pop_bindings"]
+        if len(pops) == 1 and (src_names & frame_var) and not any(isinstance(a, (ast.For, ast.While)) for a in P.ancestors(pops[0]) if a is not f and P.contains(f, a)):
             ok, why = True, ""
+            # one Var that cannot be popped (re-defined as non-dynamic inside the form) must not keep
+            # the rest of the frame bound: the pop sits in a try whose handler lets the loop go on
+            handlers = [h for a in P.ancestors(pops[0]) if isinstance(a, ast.Try) and P.contains(f, a) and any(P.contains(s, pops[0]) or s is P.stmt_of(pops[0]) for s in a.body) for h in a.handlers]
+            goes_on = bool(handlers) and all(not any(isinstance(x, (ast.Raise, ast.Break, ast.Return)) for s in h.body for x in ast.walk(s)) for h in handlers)
+            ctx.ob("C11.R3", f"{RT}::pop_thread_bindings::a Var that cannot be popped does not keep the others bound", RT, f.lineno, goes_on,
+                   "" if goes_on else "the loop over the frame's Vars is abandoned at the first pop that raises: the Vars after it stay thread-bound after the binding form has been left",
+                   witness="(binding [*x* 1 *y* 2 *z* 3] (eval '(def *y* :redefined))) leaves *x* or *z* thread-bound for good")
     ctx.ob("C11.R3", f"{RT}::pop_thread_bindings::pop-each-var-once", RT, fn.lineno, ok, why)
     tree = ctx.py(RT)
     tb = P.find_def(tree, "_ThreadBindings")
@@ -444,6 +452,8 @@ _PUSH_FIXED = '''    pushed: list[Var] = []
 '''
 
 SELFTEST = [
+    {"name": "pop loop abandoned at the first failing Var (the repaired defect)", "file": RT, "expect": "C11.R3",
+     "old": "        try:\n            var.pop_bindings()\n        except Exception as e:  # pylint: disable=broad-except\n            failure = failure or e\n", "new": "        var.pop_bindings()\n"},
     {"name": "runtime.bindings pushes inside the try whose finally pops (the repaired defect)", "file": RT, "expect": "C11.R1",
      "old": "    push_thread_bindings(m)\n    try:\n        yield\n", "new": "    try:\n        push_thread_bindings(m)\n        yield\n"},
     {"name": "pmap spawns its futures unconveyed inside the lazy-seq (the repaired defect)", "file": CORE, "expect": "C11.R5",
@@ -460,7 +470,7 @@ SELFTEST = [
     {"name": "push: compensation removed (the repaired defect)", "file": RT, "expect": "C11.R2",
      "old": "    except BaseException:\n        for var in reversed(pushed):\n            var.pop_bindings()\n        raise\n", "new": "    except BaseException:\n        raise\n"},
     {"name": "pop: only first var popped", "file": RT, "expect": "C11.R3",
-     "old": "    for var in bindings:\n        var.pop_bindings()\n", "new": "    for var in bindings:\n        var.pop_bindings()\n        break\n"},
+     "old": "        except Exception as e:  # pylint: disable=broad-except\n            failure = failure or e\n", "new": "        except Exception as e:  # pylint: disable=broad-except\n            failure = failure or e\n            break\n"},
     {"name": "frame pop does not shrink the stack", "file": RT, "expect": "C11.R3",
      "old": "        frame = self._bindings.peek()\n        self._bindings = self._bindings.pop()\n", "new": "        frame = self._bindings.peek()\n"},
     {"name": "_VarBindings shared across threads", "file": RT, "expect": "C11.R4",
